@@ -128,7 +128,7 @@ MODULES += [('JDOrth', [dict(lean='orth_calls', header=ORTH_H, custom=orth_calls
 # Gen.JDMembers: OWNERSHIP and RESET footprint of the Davidson classes, regenerated from the clang AST on every run.
 #   members   one record per data member of JDSymEigsBase / DavidsonSymEigsSolver / SearchSpace / RitzPairs: class, name, declared type (source
 #             text), reference?, pointer / non-owning handle (Eigen::Ref / Map, reference_wrapper, smart pointer, std::function)?, top-level const?,
-#             `mutable`?
+#             `mutable`?, default member initialiser (source text)
 #   aliases   the `using X = ...` declarations of those classes (class, name, aliased type): a member declared `Matrix` owns its storage only as
 #             long as `Matrix` is an Eigen::Matrix
 #   flow      the bodies of compute / compute_with_guess / the four accessors, SearchSpace::initialize_search_space,
@@ -136,10 +136,12 @@ MODULES += [('JDOrth', [dict(lean='orth_calls', header=ORTH_H, custom=orth_calls
 #             Stmt{fn, depth (nesting inside if / for), kind, target, text};  kind = "signature" (target = return type, text = parameter types),
 #             "assign" (target = left-hand side, text = right-hand side), "call" (target = callee, text = arguments), "decl" (target = variable,
 #             text = "type := initializer"), "if" / "else" / "for" / "while" (text = condition / header), "break", "return" (text = expression)
-# `C15.c15_members_owning` / `C15.c15_compute_resets_partial` (decide) read off these tables that the operator reference is the only member that
-# does not own its value, that the initial space and the scalars of a call are copied, which members `compute_with_guess` resets before the loop
-# (`m_search_space`, `niter_`) and that the remaining result members (`m_ritz_pairs`, `m_info`) are overwritten by the first trip round the loop.
-# A cache member, a member that keeps the caller's matrix by reference, a dropped `niter_ = 0` change a table and break a theorem.
+#   special_members   the constructors / destructors / assignment operators DECLARED in those classes (class, name, type, "default" | "deleted" | "user")
+# `C15.c15_members_owning` / `C15.c15_compute_resets` (decide) read off these tables that the operator reference is the only member that
+# does not own its value, that the initial space and the scalars of a call are copied, that `compute_with_guess` resets EVERY result member
+# before the loop (`m_ritz_pairs = RitzPairs<Scalar>()`, `m_info = CompInfo::NotComputed`, `m_search_space.initialize_search_space`, `niter_ = 0`)
+# and that a default-constructed `RitzPairs` is empty (defaulted constructor, no default member initialiser, implicit assignment).
+# A cache member, a member that keeps the caller's matrix by reference, a dropped reset statement change a table and break a theorem.
 JD_CLASSES = [('JDSymEigsBase', 'JDSymEigsBase.h'), ('DavidsonSymEigsSolver', 'DavidsonSymEigsSolver.h'), ('SearchSpace', 'LinAlg/SearchSpace.h'), ('RitzPairs', 'LinAlg/RitzPairs.h')]
 JD_FLOW = [('JDSymEigsBase', 'compute'), ('JDSymEigsBase', 'compute_with_guess'), ('JDSymEigsBase', 'info'), ('JDSymEigsBase', 'num_iterations'),
            ('JDSymEigsBase', 'eigenvalues'), ('JDSymEigsBase', 'eigenvectors'), ('SearchSpace', 'initialize_search_space'),
@@ -170,26 +172,37 @@ def _jd_classify(qual, text):
     return is_ref, is_ptr, is_const
 
 def jd_members(tu, t):
-    rows = []; al = []
+    rows = []; al = []; sp = []
     for cls, _h in JD_CLASSES:
         rec = _jd_record(tu, cls); src = _jd_src(cls)
         for f in rec.get('inner', []) or []:
             if f.get('kind') == 'TypeAliasDecl':
                 al.append('(%s, %s, %s)' % (_lstr(cls), _lstr(f.get('name', '?')), _lstr(f.get('type', {}).get('qualType', '?'))))
+            if not f.get('isImplicit') and (f.get('kind') in ('CXXConstructorDecl', 'CXXDestructorDecl') or (f.get('kind') == 'CXXMethodDecl' and f.get('name') == 'operator=')):
+                how = f.get('explicitlyDefaulted') or ('deleted' if f.get('explicitlyDeleted') else 'user')
+                sp.append('(%s, %s, %s, %s)' % (_lstr(cls), _lstr(re.sub(r'<.*$', '', f.get('name', '?'))), _lstr(f.get('type', {}).get('qualType', '?')), _lstr(how)))
+            if f.get('kind') == 'FunctionTemplateDecl' and f.get('name') in ('operator=', cls):
+                sp.append('(%s, %s, %s, %s)' % (_lstr(cls), _lstr(f.get('name')), _lstr('template'), _lstr('user')))
             if f.get('kind') != 'FieldDecl': continue
             b = _off(f['range']['begin']); e = _off(f['loc'])
             if b is None or e is None: raise XlateError('%s::%s: no source range' % (cls, f.get('name')))
             txt = re.sub(r'^(mutable\s+)', '', re.sub(r'\s+', ' ', src[b[0]:e[0]]).strip())
             r, p, c = _jd_classify(f.get('type', {}).get('qualType', ''), txt)
-            rows.append('{ cls := %s, name := %s, type := %s, isRef := %s, isPtr := %s, isConst := %s, isMutable := %s }' %
-                        (_lstr(cls), _lstr(f.get('name', '?')), _lstr(txt), _lbool(r), _lbool(p), _lbool(c), _lbool(bool(f.get('mutable')))))
+            ini = ''
+            if f.get('hasInClassInitializer'):
+                iv = [x for x in f.get('inner', []) or [] if isinstance(x, dict) and x.get('kind') not in ('FullComment',)]
+                ini = (_text(src, iv[0]) if iv else None) or '?'
+            rows.append('{ cls := %s, name := %s, type := %s, isRef := %s, isPtr := %s, isConst := %s, isMutable := %s, init := %s }' %
+                        (_lstr(cls), _lstr(f.get('name', '?')), _lstr(txt), _lbool(r), _lbool(p), _lbool(c), _lbool(bool(f.get('mutable'))), _lstr(ini)))
         if any(x.get('kind') == 'VarDecl' for x in rec.get('inner', []) or []): raise XlateError('%s: static data member' % cls)
-    s = '-- one data member: `type` is the declared type as written in the header; `isPtr` also covers non-owning handles (Eigen::Ref / Map, reference_wrapper, smart pointers, std::function)\n'
-    s += 'structure Member where\n  cls : String\n  name : String\n  type : String\n  isRef : Bool\n  isPtr : Bool\n  isConst : Bool\n  isMutable : Bool\n  deriving DecidableEq, Repr\n\n'
+    s = '-- one data member: `type` is the declared type as written in the header; `isPtr` also covers non-owning handles (Eigen::Ref / Map, reference_wrapper, smart pointers, std::function); `init` is the default member initialiser as written ("" = none)\n'
+    s += 'structure Member where\n  cls : String\n  name : String\n  type : String\n  isRef : Bool\n  isPtr : Bool\n  isConst : Bool\n  isMutable : Bool\n  init : String\n  deriving DecidableEq, Repr\n\n'
     s += '/-- ALL data members of `JDSymEigsBase`, `DavidsonSymEigsSolver`, `SearchSpace`, `RitzPairs`, in declaration order -/\n'
     s += 'def members : List Member := ' + _llist(rows) + '\n\n'
     s += '/-- the type aliases declared in those classes: (class, alias, aliased type) -/\n'
-    s += 'def aliases : List (String × String × String) := ' + _llist(al) + '\n'
+    s += 'def aliases : List (String × String × String) := ' + _llist(al) + '\n\n'
+    s += '/-- the constructors, destructors and assignment operators DECLARED in those classes (implicit ones are not listed): (class, name, type, "default" | "deleted" | "user") -/\n'
+    s += 'def special_members : List (String × String × String × String) := ' + _llist(sp) + '\n'
     return s
 
 def _jd_root(n):
